@@ -1335,7 +1335,13 @@ namespace
                 const std::string comb = l.gets("comb", "add");
                 WiredFn           f    = comb == "min" ? fn<stdlib::min_>() : comb == "max" ? fn<stdlib::max_>() : comb == "gadd" ? fn<CombAddG>()
                                          : comb == "nadd" ? fn<VCombAdd>() : fn<stdlib::add_>();
-                if (l.has("zero")) { env.ports.emplace(id, wire<stdlib::reduce_>(w, f, d, Int{l.geti("zero")}).as<TS<Int>>()); }
+                // ordered=1: the deterministic left fold (is_associative = false): one chained child graph per element
+                if (l.geti("ordered", 0) != 0)
+                {
+                    auto zero = wire<stdlib::const_, TS<Int>>(w, Int{l.geti("zero", 0)});
+                    env.ports.emplace(id, wire<stdlib::reduce_>(w, f, d, zero, Bool{false}).as<TS<Int>>());
+                }
+                else if (l.has("zero")) { env.ports.emplace(id, wire<stdlib::reduce_>(w, f, d, Int{l.geti("zero")}).as<TS<Int>>()); }
                 else { env.ports.emplace(id, wire<stdlib::reduce_>(w, f, d).as<TS<Int>>()); }
             }
             else if (kind == "lred")
